@@ -65,6 +65,7 @@ func init() {
 	reg(wi+"Encrypt", func(x *Exec, st *State, c *CallCtx) []Outcome {
 		declCrypto(x)
 		x.ufun("wEncS", []string{SInt, SStr, SStr, SInt}, SStr)
+		x.Reg.Axiom("wEncNE", "(forall ((w Int) (p String) (a String) (n Int)) (! (> (str.len (wEncS w p a n)) 0) :pattern ((wEncS w p a n))))")
 		x.ufun("wOkS", []string{SInt, SStr, SStr}, SBool)
 		x.ufun("wPtS", []string{SInt, SStr, SStr}, SStr)
 		x.Reg.Axiom("wRTS", "(forall ((w Int) (p String) (a String) (n Int)) (! (and (wOkS w (wEncS w p a n) a) (= (wPtS w (wEncS w p a n) a) p)) :pattern ((wEncS w p a n))))")
@@ -91,6 +92,7 @@ func init() {
 	reg(wi+"Decrypt", func(x *Exec, st *State, c *CallCtx) []Outcome {
 		declCrypto(x)
 		x.ufun("wEncS", []string{SInt, SStr, SStr, SInt}, SStr)
+		x.Reg.Axiom("wEncNE", "(forall ((w Int) (p String) (a String) (n Int)) (! (> (str.len (wEncS w p a n)) 0) :pattern ((wEncS w p a n))))")
 		x.ufun("wOkS", []string{SInt, SStr, SStr}, SBool)
 		x.ufun("wPtS", []string{SInt, SStr, SStr}, SStr)
 		fail, fe := x.errFork(st, "wdecrypt")
